@@ -320,6 +320,90 @@ def tamper_variants(D):
     return out
 
 
+def response_tamper_sweep(exe, r, c, rsp, req, run, witness, stats):
+    """the other direction of "every single-bit flip and truncation of the protected datagram":
+    the server's protected response is kept from the client, every variant of it (OSCORE option
+    value and ciphertext bits; truncations) is delivered first and must not reach the
+    response handler; then the untouched response must still be accepted"""
+    w, sim = setup(exe, r, c, False, rsp)
+    try:
+        held = []
+
+        def fault(sm, i, ev):
+            if ev["from"] == SERVER:
+                held.append(bytes.fromhex(ev["b"]))
+                return []
+            return None
+        sim.fault = fault
+        client_addr = [e["local"] for e in sim.log if e["e"] == "sess" and e.get("ok")][0]
+        sim.cmd(send_line(req))
+        sim.run(horizon=300)
+        prot = [h for h in held if len(h) > 4 and h[1] >= 64]
+        if not prot:
+            return
+        R = prot[0]
+        outer = cw.decode(R, "udp")
+        ov = [v for n, v in outer["options"] if n == 9]
+        if not ov or not outer["payload"]:
+            return
+        ov, ct = ov[0], outer["payload"]
+
+        def rebuild(newov, newct, code=None):
+            m = dict(outer)
+            m["options"] = [(n, (newov if n == 9 else v)) for n, v in outer["options"]]
+            m["payload"] = newct
+            if code is not None:
+                m["code"] = code
+            return cw.encode(m, "udp")
+        variants = []
+        for i in range(len(ov) * 8):
+            b = bytearray(ov)
+            b[i >> 3] ^= 1 << (i & 7)
+            # (a response's own kid / kid context are not covered by the AEAD - RFC 8613 5.4 puts
+            # the REQUEST's kid and Partial IV into the AAD -, so flipping the k or h flag of a
+            # response changes nothing that can be authenticated: those two bits are not judged)
+            if (i >> 3) == 0 and (i & 7) in (3, 4):
+                continue
+            variants.append(("option-bit-%d" % i, rebuild(bytes(b), ct)))
+        bits = list(range(len(ct) * 8))
+        if len(bits) > 400:
+            bits = bits[:64] + bits[-80:] + r.sample(bits[64:-80], 120)
+        for i in bits:
+            b = bytearray(ct)
+            b[i >> 3] ^= 1 << (i & 7)
+            variants.append(("ciphertext-bit", rebuild(ov, bytes(b))))
+        for n in sorted(set(list(range(1, min(len(ct), 24))) + [len(ct) - 1, len(ct) - 8, len(ct) - 9])):
+            if 0 < n < len(ct):
+                variants.append(("ciphertext-truncated", rebuild(ov, ct[:n])))
+        for n in range(0, len(ov)):
+            variants.append(("option-truncated-%d" % n, rebuild(ov[:n], ct)))
+        # (the outer code is Class U and not integrity protected - RFC 8613 4.2: the real code is
+        # the encrypted one -, so it is not among the variants)
+        sim.fault = None
+        for kind, T in variants:
+            mark = len(sim.log)
+            sim.log.extend(w.cmd("deliver %s %s %s" % (SERVER, client_addr, T.hex())))
+            stats["tampered_responses"] = stats.get("tampered_responses", 0) + 1
+            if any(e["e"] == "rsp" and e.get("n") == 0 for e in sim.log[mark:]):
+                run.violation("tampered-response-reached-handler/%s" % kind,
+                              dict(witness, tampered=T.hex(), genuine=R.hex()),
+                              "variant %s of the protected response reached the client's "
+                              "response handler" % kind)
+                return
+        mark = len(sim.log)
+        sim.log.extend(w.cmd("deliver %s %s %s" % (SERVER, client_addr, R.hex())))
+        if not any(e["e"] == "rsp" and e.get("n") == 0 and e["tok"] == req["token"].hex()
+                   for e in sim.log[mark:]):
+            nr = [v for n, v in req["options"] if n == 258]
+            if not nr:
+                run.violation("genuine-response-rejected-after-forgeries", witness,
+                              "after %d tampered variants the untouched response was not "
+                              "accepted" % len(variants))
+    finally:
+        if not w.closed:
+            w.close()
+
+
 def proxy_uri_case(exe, r, c, run, witness, stats):
     """a request the application addresses with a Proxy-Uri option, sent on an OSCORE session:
     RFC 8613 4.1.3.3 has the sender split it into Proxy-Scheme, Uri-Host and Uri-Port (outer,
@@ -565,6 +649,8 @@ def work(job):
                 observe_history(exe, r, c, run, dict(witness), stats)
             if it % 3 == 1 and info_fits(c):
                 proxy_uri_case(exe, r, c, run, dict(witness), stats)
+            if D is not None and it % tamper_every == 5 and len(D) <= 1152:
+                response_tamper_sweep(exe, r, c, rsp, req, run, dict(witness), stats)
             if D is not None and it % tamper_every == 0:
                 # tamper sweep against a fresh server: all variants first, then the genuine one
                 w2, sim2 = setup(exe, r, c, False, rsp)
@@ -640,7 +726,8 @@ def main(tier):
                 "mixes, payload 0..1024, several response codes/options; every protected "
                 "datagram is compared byte for byte with vf/refs/oscore.py; for a subset every "
                 "single-bit flip and truncation of ciphertext and OSCORE option value plus three "
-                "foreign contexts; distinct_nontrivial = distinct (id lengths, id context, salt, "
+                "foreign contexts, and for another subset the same sweep over the protected "
+                "RESPONSE delivered to the client (k/h flag bits of a response excepted); distinct_nontrivial = distinct (id lengths, id context, salt, "
                 "PIV length, method, option set, payload) tuples")
     run.assumptions = ["vf/refs/oscore.py + aesccm.py (self-tested against FIPS-197, RFC 3610, "
                        "RFC 5869 and all RFC 8613 appendix C vectors)",
